@@ -856,7 +856,9 @@ impl TyDecl {
                 .suffix
                 .clone(),
             TyDecl::AbiDecl(abi_decl) => engines.de().get_abi(&abi_decl.decl_id).name.clone(),
-            TyDecl::GenericTypeForFunctionScope(_generic_type_for_function_scope) => unreachable!(),
+            TyDecl::GenericTypeForFunctionScope(generic_type_for_function_scope) => {
+                generic_type_for_function_scope.name.clone()
+            }
             TyDecl::ErrorRecovery(_span, _error_emitted) => unreachable!(),
             TyDecl::StorageDecl(_storage_decl) => unreachable!(),
             TyDecl::TypeAliasDecl(type_alias_decl) => engines
